@@ -580,6 +580,50 @@ func (i *interpreter) symIndexAddr(elems []value, sv symV) value {
 			return symElemPtr{elems, sv}
 		}
 	}
+	// Sparse tables of references (e.g. strings.byteStringReplacer.replacements, a
+	// [256][]byte with five non-nil entries): decide the few non-nil entries one by one;
+	// all remaining indices hold nil and are represented by one shared nil cell.
+	if len(elems) >= 16 {
+		var nonNil []int
+		sparse := true
+		for k, e := range elems {
+			switch x := e.(type) {
+			case []value:
+				if x != nil {
+					nonNil = append(nonNil, k)
+				}
+			case *value:
+				if x != nil {
+					nonNil = append(nonNil, k)
+				}
+			default:
+				sparse = false
+			}
+			if !sparse || len(nonNil) > 16 {
+				sparse = false
+				break
+			}
+		}
+		if sparse {
+			for _, k := range nonNil {
+				if i.branch(tt.eq(sv.t, tt.bvConst(uint64(k), w))) {
+					return &elems[k]
+				}
+			}
+			for k := range elems {
+				isNonNil := false
+				for _, q := range nonNil {
+					if q == k {
+						isNonNil = true
+					}
+				}
+				if !isNonNil {
+					cell := elems[k] // a nil of the element type; loads only
+					return &cell
+				}
+			}
+		}
+	}
 	n := i.concretize(sv)
 	return &elems[n]
 }
